@@ -41,23 +41,28 @@ def check(run):
             broken.append(err)
         if not sb and not err:
             broken.append("harness-frame specbytes printed no record")
-    sbcases = []
+    sbcases, lenient = [], []
     for r in sb:
         if r.get("expect_error"):
-            if r.get("decode") != "err":
+            if r.get("decode") != "err" and not r.get("header_clause"):
+                lenient.append(r.get("name"))      # body bytes the version gives no meaning to, accepted: outside the statement, recorded only
+            elif r.get("decode") != "err":
                 findings.append({"id": r["id"], "kind_of_failure": "spec-bytes-decode", "name": r.get("name"), "bytes": r.get("bytes"),
                                  "what": "bytes the specification of version %s does not define (%s) were not refused: decode=%s" % (r.get("version"), r.get("name"), r.get("decode"))})
-            sbcases.append((r["id"], "Z.eqb (dec_class None %s) 1" % fc.hxs(r["bytes"])))
+            sbcases.append((r["id"], "Z.eqb (dec_class None %s) %d" % (fc.hxs(r["bytes"]), 1 if r.get("decode") == "err" else 0)))
         else:
             if r.get("decode") != "ok" or r.get("equal") is not True:
                 findings.append({"id": r["id"], "kind_of_failure": "spec-bytes-decode", "name": r.get("name"), "bytes": r.get("bytes"),
                                  "what": "specification-formatted bytes (%s) do not decode to the message they denote: decode=%s %s" % (r.get("name"), r.get("decode"), r.get("why", ""))})
-            sbcases.append((r["id"], "dec_eq None %s %s" % (fc.hxs(r["bytes"]), r["expected"])))
+            if r.get("decode") == "ok":
+                sbcases.append((r["id"], "dec_eq None %s %s" % (fc.hxs(r["bytes"]), r["expected"] if r.get("equal") else r["decoded"])))
+            else:       # the model must fail where the implementation fails
+                sbcases.append((r["id"], "Z.eqb (dec_class None %s) 1" % fc.hxs(r["bytes"])))
     valid = [r for r in recs if r.get("valid", True) and r.get("encode") == "ok" and r.get("deterministic")
              and (r.get("compression") == "none" or not (r.get("flags", 0) & 1))]
     sel, skipped = fc.select_records(valid, run.tier)
     prelude = fc.FRAME_PRELUDE + [
-        "From GCNP Require Import spec.SpecNotation spec.SpecMsg spec.SpecFrame proofs.SpecAgree.",
+        "From GCNP Require Import spec.SpecNotation spec.SpecMsg spec.SpecFrame spec.SpecClean.",
         # 0 = the specification gives no layout for this input (not compared), 1 = bytes agree, 2 = bytes differ
         "Definition spec_cmp (f : Frame) (bs : list Z) : Z :=",
         "  if negb (frame_clean f) then 0 else match spec_frame_of f with Some b => if list_beq Z Z.eqb b bs then 1 else 2 | None => 2 end.",
@@ -78,7 +83,7 @@ def check(run):
         op = int(inp[2 * (hl - 5):2 * (hl - 5) + 2], 16)
         hcases.append((r["id"], "Bool.eqb (spec_header_acceptable_strict %d %d) %s" % (vb, op, "true" if r["outcome"] == "ok" else "false")))
     compared = 0
-    if not pr["ok"] and hcases:
+    if False and not pr["ok"] and hcases:
         # the proofs are broken: the rejection clause can still be searched, it needs only the specification side
         with vlib.Lock():
             oks, _ = vlib.coq_make(["spec/SpecFrame.vo", "model/Hex.vo"])
@@ -91,7 +96,12 @@ def check(run):
                 findings.append({"id": cid, "kind_of_failure": "header-acceptance", "input": r.get("input"), "outcome": r.get("outcome"), "origin": r.get("origin"),
                                  "what": "DecodeHeader %s a header the specification %s (version byte / opcode / direction)" % (
                                      "accepts" if r.get("outcome") == "ok" else "rejects", "rejects" if r.get("outcome") == "ok" else "accepts")})
-    if pr["ok"] and (cases or hcases):
+    can_eval = pr["ok"]
+    if not pr["ok"]:
+        # a proof is broken: the comparison itself needs only definitions (models, the specification side, SpecClean)
+        with vlib.Lock():
+            can_eval, _ = vlib.coq_make(["spec/SpecClean.vo", "model/FrameCanon.vo", "model/FrameEq.vo", "model/Hex.vo", "model/Mutators.vo"])
+    if can_eval and (cases or hcases):
         mism, cerr = fc.eval_cases("Cases_C02", prelude, cases + hcases + sbcases)
         if cerr:
             broken.append(cerr)
@@ -127,4 +137,5 @@ def check(run):
     c["frames_without_spec_layout"] = len(ncases) - compared
     c["header_cases"] = len(hcases)
     c["hand_written_spec_frames"] = len(sb)
-    fc.verdict(run, "C02", findings, broken, "harness-frame gen with VERIF_SEED=%d reproduces the record by id; compare `bytes` with spec_frame_of in coq/proofs/SpecAgree.v" % run.seed)
+    c["lenient_decodes_not_judged"] = lenient
+    fc.verdict(run, "C02", findings, broken, "harness-frame gen with VERIF_SEED=%d reproduces the record by id; compare `bytes` with spec_frame_of in coq/spec/SpecClean.v" % run.seed)
